@@ -351,7 +351,7 @@ namespace bluetoe
                             used_buffer_  = 0;
                             in_flash_mode = true;
 
-                            if ( !MemRegions::acceptable( start_address, start_address ) )
+                            if ( !page_acceptable( start_address ) )
                                 return request_error( bluetoe::error_codes::invalid_offset );
 
                             for ( auto& buffer : buffers_ )
@@ -595,8 +595,24 @@ namespace bluetoe
                     return result;
                 }
 
+                /*
+                 * Memory is read and flashed in whole pages. So the page that contains the given address have
+                 * to be entirely within the accessable memory regions.
+                 */
+                static bool page_acceptable( std::uintptr_t address )
+                {
+                    const std::uintptr_t page_start = address - address % PageSize;
+                    const std::uintptr_t page_end   = page_start + PageSize;
+
+                    return page_start < page_end && MemRegions::acceptable( page_start, page_end );
+                }
+
                 bool find_next_buffer( std::size_t start_address )
                 {
+                    // data that follows the first page must stay within the accessable memory regions too
+                    if ( !page_acceptable( start_address ) )
+                        return false;
+
                     const auto next = ( next_buffer_ + 1 ) % number_of_concurrent_flashs;
 
                     if ( buffers_[ next ].empty() )
